@@ -311,6 +311,51 @@ theorem exec_background_records (s : Cmds.St) (neg : Bool) (hargs : List Bytes) 
   have hp : Cmds.progOf (lit "vh") = .helper := by decide +kernel
   simp [Cmds.execBg, hp, hr, Cmds.okay]
 
+/-- `exec` with no program — no words at all, or only a background specifier `&` / `&name&` — is a
+usage error reported as a failure of that line; in particular `exec &name&` does not reach the
+slice `args[1:len(args)-1]` (regenerated fact `execRejectsLoneBgSpec`: the usage check tests
+`backgroundSpecifier.MatchString(args[0])`; with `args[0] == "&"` there it panicked — repaired). -/
+theorem exec_without_program_is_usage_error (p : Bool) (s : Cmds.St) (neg : Bool) (spec : Bytes)
+    (hspec : Cmds.isBgSpec spec = true) :
+    Cmds.cmdExec p s neg [] = Cmds.fatal s ∧ Cmds.cmdExec p s neg [spec] = Cmds.fatal s := by
+  have hf : Gen.TsRun.execRejectsLoneBgSpec = true := rfl
+  constructor
+  · rfl
+  · simp [Cmds.cmdExec, hf, hspec]
+
+/-- … hence `exec` never ends in a Go panic: the `crash` outcome occurs only together with the
+`unmodelled` flag (a program or helper action outside the modelled fragment, which the driver
+reports as unsupported), never as the model's rendering of `args[1:0]`. -/
+theorem exec_never_panics (p : Bool) (s : Cmds.St) (neg : Bool) (args : List Bytes) :
+    (Cmds.cmdExec p s neg args).2 = .crash → (Cmds.cmdExec p s neg args).1.unmodelled = true := by
+  have hf : Gen.TsRun.execRejectsLoneBgSpec = true := rfl
+  cases args with
+  | nil => simp [Cmds.cmdExec, Cmds.fatal]
+  | cons prog rest =>
+    cases rest with
+    | nil =>
+      simp only [Cmds.cmdExec, hf, if_true, List.isEmpty_nil, Bool.true_and, List.getLast?_nil, Option.getD_none]
+      by_cases hb : Cmds.isBgSpec prog = true
+      · simp [hb, Cmds.fatal]
+      · simp only [hb, Bool.false_eq_true, if_false]
+        split
+        · simp [Cmds.unm]
+        · unfold Cmds.execFg
+          split <;> (try split) <;> (try split) <;> (try split) <;> simp [Cmds.unm, Cmds.fatal, Cmds.okay]
+    | cons r1 rs =>
+      simp only [Cmds.cmdExec, hf, if_true, List.isEmpty_cons, Bool.false_and, Bool.false_eq_true, if_false]
+      split
+      · simp [Cmds.unm]
+      · split
+        · split
+          · simp [Cmds.fatal]
+          · unfold Cmds.execBg
+            split <;> (try split) <;> (try split) <;> simp [Cmds.unm, Cmds.fatal, Cmds.okay]
+        · unfold Cmds.execFg
+          split <;> (try split) <;> (try split) <;> (try split) <;> simp [Cmds.unm, Cmds.fatal, Cmds.okay]
+
+example : Cmds.isBgSpec (lit "&x&") = true ∧ Cmds.isBgSpec (lit "&") = true := by decide +kernel
+
 /-- a foreground `exec` of the helper: ends `ok` iff the exit status is as the line demands -/
 theorem exec_foreground_status (s : Cmds.St) (neg : Bool) (hargs : List Bytes) (r : Cmds.HRes)
     (hr : Cmds.runHelper s.stdin hargs = some r) (hb : r.blocks = false) :
